@@ -21,8 +21,13 @@ Transcribed (file:lines of /repo/lena):
 * `Split.run`                core/split.py:280-417 (block processing from `Lena.C03`) → `splitG`
 * `Sequence.run`             core/sequence.py:67-77             → `seqRun`
   (`Source.__call__`, core/source.py: `self._tail.run(first())`, is `seqRun` on the flow `first()`)
-and the pieces of `FillComputeSeq`/`FillSeq`/`FillInto` (`fillChain`) that decide when a
-fill/compute branch of a `Split` raises `LenaStopFill`.
+and the pieces of `FillComputeSeq`/`FillSeq`/`FillInto` (`fillChain`: callables, `Filter.fill_into`,
+`Slice.fill_into`, `Count.fill_into`) that decide when a fill/compute branch of a `Split` raises
+`LenaStopFill`; `Source` branches of a `Split` (`srcOps`); sequence-type branches keep the state of
+the `Count` elements inside their `RunIf` elements from block to block (`seqOps`).
+Not modelled (not streaming elements): fill/request branches (`FillRequest`, C16), `Run._fc_run`,
+`Reverse`/`End` (consume the whole flow by documentation), `RunIf` as a fill-into element
+(`FillInto._run_fill_into`).
 
 Conventions.
 * A Python generator that has finished keeps raising `StopIteration` without running any code.
